@@ -18,7 +18,7 @@ from .unit import Unit, UnitError
 
 VERIF = runner.VERIF
 UNITS = os.path.join(VERIF, 'units')
-EVID = os.path.join(VERIF, 'evidence')
+EVID = os.environ.get('VERIF_EVID') or os.path.join(VERIF, 'evidence')
 KF_FILE = os.path.join(VERIF, 'known_findings.json')
 
 
@@ -59,6 +59,8 @@ def main(argv=None):
     t0 = time.time()
     os.makedirs(EVID, exist_ok=True)
     os.makedirs(os.path.join(EVID, 'replay'), exist_ok=True)
+    for old in glob.glob(os.path.join(EVID, 'replay', prop + '-*.json')):
+        os.remove(old)
 
     try:
         units = [u for u in load_units() if prop in u.tags()]
